@@ -918,7 +918,9 @@ fn observe(g: &mut G, rng: &Shared, m: &Model, stats: &mut std::collections::BTr
         bits(&after.state),
         after.text
     );
-    let output = format!("~{:e} {} 1 1 {} {} 1 ok", t.p_to_flip, d.k, if t.accepted { "1" } else { "-" }, p2tok);
+    // last token: the decidable hypothesis `RegionOK` of the kernel theorems (ising_timestep_invariant_rvb_cut)
+    // evaluated by the model on the traced region (before, and after when applied) must hold: expected constant
+    let output = format!("~{:e} {} 1 1 {} {} 1 ok rok=1", t.p_to_flip, d.k, if t.accepted { "1" } else { "-" }, p2tok);
     // --- kind `region`: the exact proposal model replayed on the recorded draws must produce exactly
     // the traced region and consume exactly the words drawn before the accept draw.
     // Oracle (model independent): (1) the update leaves what the proposal reads untouched (positions of
@@ -1000,7 +1002,7 @@ fn observe(g: &mut G, rng: &Shared, m: &Model, stats: &mut std::collections::BTr
         emit(
             cells >= 2,
             &format!("region {} {} {} {}", m.nvars, show_edges(m), before.text, list(&log)),
-            &format!("{} {} {} {} ok", list(&reg.subvars), bits(&reg.start), list(&reg.toggles), prop_draws),
+            &format!("{} {} {} {} ok rok=1", list(&reg.subvars), bits(&reg.start), list(&reg.toggles), prop_draws),
             Some(if rfails.is_empty() { Ok(()) } else { Err(rfails.join("; ")) }),
         );
     }
@@ -1335,7 +1337,7 @@ fn j0_regression() {
                 emit(
                     true,
                     &input,
-                    &format!("{} {} {} {} ok", list(&reg.subvars), bits(&reg.start), list(&reg.toggles), log.len() - tail),
+                    &format!("{} {} {} {} ok rok=1", list(&reg.subvars), bits(&reg.start), list(&reg.toggles), log.len() - tail),
                     Some(if ok { Ok(()) } else { Err(format!("F21: the cluster grew across a J = 0 edge: {:?}", reg)) }),
                 );
             }
